@@ -177,8 +177,11 @@ class Ctx:
             "helpers_absorbed": sorted(getattr(self.repo, "absorbed", ()) or ()),
             "functions_with_alias_expansion": getattr(self.repo, "alias_rewrites", 0),
             "temporaries_folded": getattr(self.repo, "temp_folds", 0),
-            "rule": "gverif/inline.py: calls to functions absent from the reference inventory (baseline_funcs.txt) are expanded in the "
-                    "caller; single-assignment aliases of final attributes are expanded; `t = E` read once by the next statement is folded",
+            "new_constants_folded": getattr(self.repo, "const_folds", 0),
+            "unpassed_keyword_parameters_bound": getattr(self.repo, "default_binds", 0),
+            "rule": "gverif/inline.py: calls to functions absent from the reference inventory (baseline_funcs.txt) and to 14 small reference helpers are expanded in the "
+                    "caller; single-assignment aliases of final attributes are expanded; `t = E` read once by the next statement is folded; module-level constants and "
+                    "keyword parameters absent from the reference inventory (baseline_names.txt) are replaced by their value / bound to their default when nothing rebinds / passes them",
         }
         if self.liveness is not None:
             cov["liveness"] = self.liveness
